@@ -7,11 +7,11 @@ CONSTANTS
   SizeVa = 3
   SizeCh = 2
   SizeNe = 2
+  SizeSt = 2
   ExtClass <- NoExt
   ExtEsc <- NoExt
   ExtSep <- OneSpace
 INVARIANT NoResidual
-INVARIANT HideSetsAreNames
 CONSTRAINT DumpConstraint
 VIEW ProgView
 CHECK_DEADLOCK FALSE
